@@ -448,10 +448,10 @@ Proof.
   apply (tb_outs _ _ (proj1 (tq_disarm T_wifi s3 NC))). exact W3.
 Qed.
 (* the disconnect callback and the plain events *)
-Lemma tq_disccb s : TQ s (dev_step s DiscCb).
+Lemma tq_disc_step s : TQ s (disc_step s).
 Proof.
   destruct consts_ok as [_ _ _ _ _ [K1 [K2 [K3 [K4 K5]]]] _ _].
-  cbn [dev_step]. set (s1 := if link s =? L_LIVE then wire_close s else s).
+  unfold disc_step. set (s1 := if link s =? L_LIVE then wire_close s else s).
   assert (H1 : TQ s s1) by (subst s1; destruct (_ =? _); [apply tq_wire_close|apply TQ_refl]).
   unfold disconnect_cb.
   set (s2 := set_recvbuf [] (set_espbuf [] (gpio_state_ipreceived (set_link L_IDLE (emit O_DISCD [now s1; conn s1; evi s1] s1))))).
@@ -461,6 +461,8 @@ Proof.
   destruct (started s2); [|exact H2].
   eapply TQ_trans; [exact H2|]. eapply TQ_trans; [|apply tq_arm; notcore]. apply tq_disarm; notcore.
 Qed.
+Lemma tq_disccb s : TQ s (dev_step s DiscCb).
+Proof. cbn [dev_step]. apply tq_disc_step. Qed.
 
 (* ---------- (3) timing invariants ---------- *)
 Definition WD_US : Z := WATCHDOG_MS * 1000.
@@ -1177,7 +1179,9 @@ Proof.
   - cbn [dev_step]. eapply All_TQ; [exact A|apply tq_set_wstatus].
   - cbn [env_allows] in HE. apply Z.eqb_eq in HE. apply conncb_all; auto.
   - eapply All_TQ; [exact A|apply tq_disccb].
-  - cbn [dev_step]. eapply All_TStep; [|apply ts_recv_cb]. eapply All_TQ; [exact A|apply tq_emit].
+  - cbn [dev_step].
+    assert (A1 : All (recv_cb b (emit O_RX [now s; conn s; evi s] s))) by (eapply All_TStep; [|apply ts_recv_cb]; eapply All_TQ; [exact A|apply tq_emit]).
+    destruct (link s =? L_CLOSING); [|exact A1]. generalize dependent (recv_cb b (emit O_RX [now s; conn s; evi s] s)). intros x A1. eapply All_TQ; [exact A1|apply tq_disc_step].
   - cbn [dev_step]. eapply All_TQ; [exact A|apply tq_set_liveres].
   - cbn [dev_step]. eapply All_TQ; [exact A|apply tq_set_script].
   - cbn [dev_step]. eapply All_TQ; [exact A|apply tq_local_call].
@@ -1528,7 +1532,10 @@ Proof.
   - cbn [dev_step]. apply prog_TQ; auto. apply tq_set_wstatus.
   - cbn [env_allows] in E. apply Z.eqb_eq in E. apply conncb_prog; auto.
   - apply prog_TQ; auto. apply tq_disccb.
-  - cbn [dev_step]. apply prog_TStep; auto. eapply TStep_trans; [apply TQ_TStep, tq_emit|apply ts_recv_cb].
+  - cbn [dev_step].
+    assert (T1' : TStep s1 (recv_cb b (emit O_RX [now s1; conn s1; evi s1] s1))) by (eapply TStep_trans; [apply TQ_TStep, tq_emit|apply ts_recv_cb]).
+    apply prog_TStep; auto. destruct (link s1 =? L_CLOSING); [|exact T1'].
+    generalize dependent (recv_cb b (emit O_RX [now s1; conn s1; evi s1] s1)). intros x T1'. eapply TStep_trans; [exact T1'|]. apply TQ_TStep. apply tq_disc_step.
   - cbn [dev_step]. apply prog_TQ; auto. apply tq_set_liveres.
   - cbn [dev_step]. apply prog_TQ; auto. apply tq_set_script.
   - cbn [dev_step]. apply prog_TQ; auto. apply tq_local_call.
